@@ -611,6 +611,39 @@ def check_one(acc, st, v1, name, label, req):
                 cmdname, (firm[0] if firm else "?").replace(" ", "-")))
         if label == "valid" and code != 0:
             return bad("valid-request-failed:%s:%d" % (cmdname, code))
+        dev_refused = any(e["ev"] == "apdu" and e.get("sw") not in (None, 0x9000)
+                          for e in apdus)
+        if code in v.codes and code not in (0, 1) and not dev_refused:
+            # where the documents leave acceptance open, a request may be accepted - and then
+            # judged by the device.  This one was turned down by the manager itself, with a
+            # validation code, after the dialogue with the device had begun (every answer
+            # of the device was a success): not accepted, yet exchanged with
+            soft = sorted((w.lstrip("?") for w in v.why if w.startswith("?")),
+                          key=lambda w: w.startswith("version"))
+            if soft and soft[0].startswith("brother"):
+                # (which kind of brother: one whose very hash cannot be computed - not an RLP
+                # list of 17..20 items, found before anything is sent - or one that only
+                # fails when its turn to be sent comes)
+                from ..oracle import rlp as _rlp
+
+                def hashable(x):
+                    try:
+                        it, _ = _rlp.decode(bytes.fromhex(x))
+                        return isinstance(it, list) and 17 <= len(it) <= 20
+                    except Exception:
+                        return False
+                bros = [x for bl in req.get("brothers", []) if isinstance(bl, list)
+                        for x in bl if isinstance(x, str)]
+                if any(dp.hex_class(x) == "ok" and len(x) and not hashable(x) for x in bros):
+                    soft[0] = "brother whose hash cannot be computed"
+                else:
+                    soft[0] = "brother with a hash that cannot be sent"
+            if repair_pending and not any(e["ev"] == "apdu" and fl_cmd_apdu(e) for e in apdus):
+                # (nothing but the pending repair's bring-up went out)
+                return bad("device-contacted-before-refusal:repair-pending:%s:%s" % (
+                    cmdname, (soft[0] if soft else "?").replace(" ", "-")))
+            return bad("device-contacted-before-refusal:%s:%s" % (
+                cmdname, (soft[0] if soft else "?").replace(" ", "-")))
     else:
         if cmdname == "version" and not v.codes:
             if code != 0:
